@@ -179,9 +179,11 @@ type Finding struct {
 
 func loadFindings(id string) []Finding {
 	var out []Finding
-	b, err := os.ReadFile(filepath.Join(Root, "known_findings.jsonl"))
-	if err != nil {
-		return nil
+	b, _ := os.ReadFile(filepath.Join(Root, "known_findings.jsonl"))
+	extra, _ := filepath.Glob(filepath.Join(Root, "known_findings.d", "*.jsonl"))
+	for _, f := range extra {
+		x, _ := os.ReadFile(f)
+		b = append(append(b, '\n'), x...)
 	}
 	for _, l := range strings.Split(string(b), "\n") {
 		l = strings.TrimSpace(l)
